@@ -96,4 +96,7 @@ def writerEncStats (c : ColSpec) (npages : Nat) : List (Nat × Nat × Nat) :=
   if c.dictItem.isSome then [(2, ENC_PLAIN, 1), (if c.v2 then 3 else 0, ENC_RLE_DICTIONARY, npages)]
   else [(if c.v2 then 3 else 0, ENC_PLAIN, npages)]
 
+/-- `Statistics.null_count` of the chunk as `write_column` records it: the per-page tallies added up (`global_num_nulls`) -/
+def writerNullCount (pages : List (List Cell)) : Nat := (pages.map fun p => p.length - (nonNull p).length).sum
+
 end PqV.Impl
